@@ -24,6 +24,7 @@ def corpus() -> list[dict]:
         for e in json.load(open(idx)):
             e = dict(e)
             e["patch"] = os.path.join(VERIF, "mutants", e["patch"])
+            e.setdefault("base_commit", None)
             out.append(e)
     for meta in sorted(glob.glob(os.path.join(VERIF, "seeded", "*", "meta.json"))):
         m = json.load(open(meta))
